@@ -56,3 +56,18 @@ Print Assumptions C03_unitary.
 Example C03_roots_example : map (fun d => sum (R:=GRing) 4 (fun k => kpow GRing ((0, -1)%Z : G) (k * d))) [0; 1; 2; 3]%nat
   = [(4, 0); (0, 0); (0, 0); (0, 0)]%Z.
 Proof. vm_compute. reflexivity. Qed.
+
+(* N-D: every transformed axis of an N-D entry obeys the 1-D statement, and the set of per-axis phase factors does not
+   depend on the order in which the transform axes (with their sizes) are listed *)
+From Coq Require Import Permutation.
+Theorem C03_nd_axes : forall ns Ns ks rs es,
+  Forall (fun n => 0 < n) ns -> Forall (fun N => 0 < N) Ns -> fftn_entry ns Ns ks rs = Some es ->
+  Forall2 (fun e '(n, N, k, r) => e = ((k - N / 2) * (r + left_pad n N - N / 2)) mod N /\ 0 <= r < n /\ 0 <= k < N)
+          es (combine (combine (combine ns Ns) ks) rs).
+Proof. exact fftn_entry_spec. Qed.
+Print Assumptions C03_nd_axes.
+
+Theorem C03_axis_order_irrelevant : forall l l', Permutation l l' ->
+  match entries l, entries l' with Some es, Some es' => Permutation es es' | None, None => True | _, _ => False end.
+Proof. exact entries_perm. Qed.
+Print Assumptions C03_axis_order_irrelevant.
